@@ -139,6 +139,7 @@ class Seq:
     c: Optional[int] = field(default=None, metadata={"type": "Element"})
     w: list[int] = field(default_factory=list, metadata={"type": "Element", "wrapper": "ws", "name": "w"})
     rows: list[list[int]] = field(default_factory=list, metadata={"type": "Element", "tokens": True, "name": "row"})
+    nn: list[Optional[int]] = field(default_factory=list, metadata={"type": "Element", "nillable": True, "sequence": 1})   # nil items inside a sequence group
 
 
 @dataclass
